@@ -58,7 +58,10 @@ impl C12 {
         let doc = match guarded(|| {
             let v = toml_edit::Value::from_str(s).map_err(|e| e.to_string()).and_then(|v| v.as_datetime().map(dt_to_r).ok_or_else(|| format!("not a date-time but {}", v.type_name())));
             let d = toml_edit::DocumentMut::from_str(&format!("k = {s}\n")).map_err(|e| e.to_string()).and_then(|d| d.get("k").and_then(|i| i.as_datetime()).map(dt_to_r).ok_or_else(|| "not a date-time".to_string()));
-            (v, d)
+            // the serde front ends read the same document (they go through a second, textual hop)
+            let sv = toml::from_str::<toml::Value>(&format!("k = {s}\n")).map_err(|e| e.to_string()).and_then(|v| v.get("k").and_then(|x| x.as_datetime()).map(dt_to_r).ok_or_else(|| "not a date-time".to_string()));
+            let sf = toml_edit::de::from_str::<std::collections::BTreeMap<String, toml_datetime::Datetime>>(&format!("k = {s}\n")).map_err(|e| e.to_string()).and_then(|m| m.get("k").map(dt_to_r).ok_or_else(|| "no entry".to_string()));
+            (v, d, sv, sf)
         }) {
             Ok(x) => x,
             Err((loc, msg)) => {
@@ -66,7 +69,7 @@ impl C12 {
                 return;
             }
         };
-        for (name, got) in [("Value::from_str", &doc.0), ("document", &doc.1)] {
+        for (name, got) in [("Value::from_str", &doc.0), ("document", &doc.1), ("toml::from_str::<Value>", &doc.2), ("toml_edit::de::from_str::<map of Datetime>", &doc.3)] {
             match (&r, got) {
                 (Ok(a), Ok(b)) => {
                     if a != b {
